@@ -6,11 +6,14 @@ CONSTANTS
   AlgSel = {"ecdsa", "gost"}
   Kinds = {"hmap"}
   Seed = 1
-  SignEAll = {}
+  SignEAllE = {}
+  SignEAllG = {}
   SignDFew = {}
-  VgPairs = {}
+  VgPairsE = {}
+  VgPairsG = {}
   VlQ = {}
-  VlE = {}
+  VlEE = {}
+  VlEG = {}
 INVARIANTS CorpusShape Complete SignDefn SignFails Exact ListExact
 CONSTRAINT Emit
 CHECK_DEADLOCK FALSE
